@@ -389,6 +389,8 @@ NavL1 == SetToSeq({fA, fB, fC, fD, fEe, fF, fG, fH, fCapA, Field(<<122>>), Curre
    Filt(fD, Identity, Current), Filt(fC, fA, fC), Filt(Identity, Identity, fA),
    SliceOf(fC, IntP(1), NoneP, NoneP), SliceOf(fEe, NoneP, NoneP, IntP(-1)), SliceOf(fD, NoneP, IntP(1), NoneP), SliceOf(fF, NoneP, NoneP, IntP(2)),
    SliceOf(Identity, IntP(1), NoneP, NoneP), Proj(IdxE(fC, SliceN(NoneP, IntP(2), NoneP)), fA),
+   SliceOf(fC, NoneP, NoneP, IntP(0)), SliceOf(fD, IntP(1), IntP(2), IntP(0)), SliceOf(fEe, NoneP, NoneP, IntP(0)), SliceOf(fF, NoneP, IntP(1), IntP(0)), SliceOf(Identity, NoneP, NoneP, IntP(0)),
+   SliceOf(fC, NoneP, NoneP, IntP(-1)), SliceOf(fD, IntP(-1), NoneP, IntP(-1)), SliceOf(fF, NoneP, NoneP, IntP(-2)),
    MSL(<<Sub(fA, fA), Sub(fB, fA)>>), MSL(<<fG, fH>>), MSH(<<KV(<<120>>, Sub(fA, fA)), KV(<<121>>, Sub(IdxL(fD, 0), fA))>>),
    Proj(fD, MSL(<<fA, fB>>)), Proj(fC, MSH(<<KV(<<120>>, fA)>>)), Proj(fD, MSH(<<KV(<<120>>, fA)>>)), Proj(Identity, MSL(<<fA>>)),
    Or(Sub(fB, fA), Sub(fA, fA)), Or(fB, fA), And(fB, Sub(fB, fA)), And(fG, fH), Not(fB), Not(fG), Not(fC), Not(fD), Not(fH), Or(fC, fEe), And(fC, fF),
